@@ -79,6 +79,162 @@ func corrC07(out string, seed uint64, tier string, replay string) *report {
 		}
 	}
 
+	// ---- part 3 (run first: it needs no long history): registration concurrent with dispatch ----
+	// one goroutine keeps checking hashes of prefix P (and, half of the time, of another prefix); the main goroutine
+	// registers handler i for P and, once RegisterHash has returned, checks a hash of P itself: that call happens
+	// after the registration, so it must reach handler i, whatever the other goroutine was doing in between
+	{
+		crypt.VerifResetRegistry()
+		rounds := 4000
+		if tier == "thorough" {
+			rounds = 60000
+		}
+		var lastCalled int64 = -1
+		mkc := func(id int64) func(string, string) error {
+			return func(h, p string) error {
+				if p == "main" {
+					atomic.StoreInt64(&lastCalled, id)
+				}
+				return nil
+			}
+		}
+		crypt.RegisterHash("$q$", mkc(-2))
+		crypt.RegisterHash("$p$", mkc(-3))
+		stop := make(chan struct{})
+		done := make(chan struct{})
+		go func() {
+			defer close(done)
+			k := 0
+			for {
+				select {
+				case <-stop:
+					return
+				default:
+				}
+				k++
+				crypt.Check("$p$x", "other")
+				if k%2 == 0 {
+					crypt.Check("$q$x", "other")
+				}
+			}
+		}()
+		stale := 0
+		var first map[string]interface{}
+		for i := 0; i < rounds; i++ {
+			crypt.RegisterHash("$p$", mkc(int64(i)))
+			atomic.StoreInt64(&lastCalled, -1)
+			err := crypt.Check("$p$x", "main")
+			if got := atomic.LoadInt64(&lastCalled); got != int64(i) || err != nil {
+				stale++
+				if first == nil {
+					first = map[string]interface{}{"round": i, "handler_reached": got, "error": fmt.Sprint(err)}
+				}
+			}
+			rep.count(fmt.Sprint("conc", i), true)
+		}
+		close(stop)
+		<-done
+		rep.Distribution["concurrent_registration_rounds"] = rounds
+		if stale > 0 {
+			rep.fail(map[string]interface{}{"history": "goroutine B: Check($p$x) / Check($q$x) in a loop; goroutine A, per round i: RegisterHash($p$, handler i); Check($p$x)", "first_bad_round": first, "bad_rounds": stale},
+				"A's Check reaches handler i (its own registration completed before the call)", fmt.Sprintf("%d of %d rounds reached an older handler", stale, rounds),
+				"a Check issued after RegisterHash returned is routed to a handler registered earlier (routing to the latest registration fails under concurrent dispatch)")
+		}
+	}
+	// ---- part 4 (run first): concurrent registrations of different prefixes; concurrent dispatch calls each reach the handler ----
+	{
+		crypt.VerifResetRegistry()
+		G, each := 8, 60
+		if tier == "thorough" {
+			G, each = 16, 400
+		}
+		var hits sync.Map
+		var wg sync.WaitGroup
+		for g := 0; g < G; g++ {
+			wg.Add(1)
+			go func(g int) {
+				defer wg.Done()
+				for k := 0; k < each; k++ {
+					pre := fmt.Sprintf("$g%dk%d$", g, k)
+					crypt.RegisterHash(pre, func(h, p string) error { hits.Store(h, true); return nil })
+				}
+			}(g)
+		}
+		wg.Wait()
+		lost := 0
+		var firstLost string
+		for g := 0; g < G; g++ {
+			for k := 0; k < each; k++ {
+				h := fmt.Sprintf("$g%dk%d$x", g, k)
+				err := crypt.Check(h, "p")
+				if _, ok := hits.Load(h); err != nil || !ok {
+					lost++
+					if firstLost == "" {
+						firstLost = h + " -> " + fmt.Sprint(err)
+					}
+				}
+			}
+		}
+		if lost > 0 {
+			rep.fail(map[string]interface{}{"history": fmt.Sprintf("%d goroutines register %d distinct prefixes each, concurrently; afterwards every prefix is checked", G, each), "first": firstLost},
+				"every registered prefix is routed to its handler", fmt.Sprintf("%d of %d registrations are not in effect", lost, G*each), "a registration made concurrently with others is lost")
+		}
+		rep.count("concurrent registrations", true)
+		// every dispatch call is passed through to the handler with its own arguments, also when calls overlap
+		// (handlers that take a while, identical calls, and calls whose hash+'$'+password texts coincide)
+		crypt.VerifResetRegistry()
+		var mu sync.Mutex
+		got := map[string]int{}
+		crypt.RegisterHash("$x$", func(h, p string) error {
+			time.Sleep(200 * time.Microsecond)
+			mu.Lock()
+			got[h+"\x00"+p]++
+			mu.Unlock()
+			return fmt.Errorf("r:%s:%s", h, p)
+		})
+		pairs := [][2]string{{"$x$salt$sum", "pass$word"}, {"$x$salt$sum$pass", "word"}, {"$x$salt$sum", "pass$word"}, {"$x$a", "b"}, {"$x$a", "b"}, {"$x$", ""}, {"$x$a$", "b"}, {"$x$a", "$b"}}
+		want := map[string]int{}
+		wrong := 0
+		var firstWrong string
+		var wg2 sync.WaitGroup
+		start := make(chan struct{})
+		reps := 40
+		for rpt := 0; rpt < reps; rpt++ {
+			for _, pr := range pairs {
+				want[pr[0]+"\x00"+pr[1]]++
+				wg2.Add(1)
+				go func(h, p string) {
+					defer wg2.Done()
+					<-start
+					err := crypt.Check(h, p)
+					if err == nil || err.Error() != "r:"+h+":"+p {
+						mu.Lock()
+						wrong++
+						if firstWrong == "" {
+							firstWrong = fmt.Sprintf("Check(%q, %q) returned %v", h, p, err)
+						}
+						mu.Unlock()
+					}
+				}(pr[0], pr[1])
+			}
+		}
+		close(start)
+		wg2.Wait()
+		mu.Lock()
+		for k, n := range want {
+			if got[k] != n && firstWrong == "" {
+				firstWrong = fmt.Sprintf("handler was called %d times with %q, %d calls were made", got[k], strings.Replace(k, "\x00", " / ", 1), n)
+				wrong++
+			}
+		}
+		mu.Unlock()
+		if wrong > 0 {
+			rep.fail(map[string]interface{}{"history": fmt.Sprintf("%d overlapping Check calls on one prefix (identical calls, and calls whose hash+$+password coincide)", reps*len(pairs)), "first": firstWrong},
+				"every call invokes the handler once with its own hash and password and returns that invocation's result", fmt.Sprintf("%d deviations", wrong),
+				"overlapping dispatch calls are merged, dropped or answered with another call's result")
+		}
+		rep.count("overlapping dispatch", true)
+	}
 	// ---- part 1: the computed prefix of every string (all candidate prefixes registered) ----
 	cs1 := newCaseSet(out, "C07_prefix", []string{"GC.Dispatch.Dispatch", "GC.Dispatch.DispatchCases"},
 		"bytes * option bytes", "ok_prefix", 4000)
@@ -87,7 +243,18 @@ func corrC07(out string, seed uint64, tier string, replay string) *report {
 		maxLen = 8
 	}
 	documented := []string{"$1$", "$2$", "$2a$", "$2b$", "$3$", "$5$", "$6$", "$sha1$", "$md5,", "$md5$", "$argon2d$", "$argon2i$", "$argon2id$", "_", ""}
+	t0 := time.Now()
+	budgetNoted := false
 	probe := func(h string, exhaustive bool) {
+		if time.Since(t0) > 240*time.Second {
+			// (on the unchanged tree the whole run takes seconds) registry operations that slow down with the number of
+			// registrations ever made would otherwise keep the search for a failing input from finishing
+			if !budgetNoted {
+				budgetNoted = true
+				rep.Notes = append(rep.Notes, "prefix probes stopped after 240 s")
+			}
+			return
+		}
 		crypt.VerifResetRegistry()
 		keys := map[string]int{}
 		var keyList []string
@@ -202,6 +369,9 @@ func corrC07(out string, seed uint64, tier string, replay string) *report {
 	rec(nil)
 	rep.ExhaustiveSpaces = append(rep.ExhaustiveSpaces, fmt.Sprintf("all registration histories of length <= %d over %q x %d probe strings", maxHist, prefixes, len(probes)))
 	runHist := func(hist []reg, h, pw string) {
+		if time.Since(t0) > 300*time.Second {
+			return
+		}
 		crypt.VerifResetRegistry()
 		ref := map[string]int{}
 		for _, g := range hist {
@@ -283,162 +453,6 @@ func corrC07(out string, seed uint64, tier string, replay string) *report {
 			h = r.str(r.intn(10), "$,_ab")
 		}
 		runHist(hist, h, r.str(r.intn(5), "pq$"))
-	}
-	// ---- part 3: registration concurrent with dispatch ----
-	// one goroutine keeps checking hashes of prefix P (and, half of the time, of another prefix); the main goroutine
-	// registers handler i for P and, once RegisterHash has returned, checks a hash of P itself: that call happens
-	// after the registration, so it must reach handler i, whatever the other goroutine was doing in between
-	{
-		crypt.VerifResetRegistry()
-		rounds := 4000
-		if tier == "thorough" {
-			rounds = 60000
-		}
-		var lastCalled int64 = -1
-		mkc := func(id int64) func(string, string) error {
-			return func(h, p string) error {
-				if p == "main" {
-					atomic.StoreInt64(&lastCalled, id)
-				}
-				return nil
-			}
-		}
-		crypt.RegisterHash("$q$", mkc(-2))
-		crypt.RegisterHash("$p$", mkc(-3))
-		stop := make(chan struct{})
-		done := make(chan struct{})
-		go func() {
-			defer close(done)
-			k := 0
-			for {
-				select {
-				case <-stop:
-					return
-				default:
-				}
-				k++
-				crypt.Check("$p$x", "other")
-				if k%2 == 0 {
-					crypt.Check("$q$x", "other")
-				}
-			}
-		}()
-		stale := 0
-		var first map[string]interface{}
-		for i := 0; i < rounds; i++ {
-			crypt.RegisterHash("$p$", mkc(int64(i)))
-			atomic.StoreInt64(&lastCalled, -1)
-			err := crypt.Check("$p$x", "main")
-			if got := atomic.LoadInt64(&lastCalled); got != int64(i) || err != nil {
-				stale++
-				if first == nil {
-					first = map[string]interface{}{"round": i, "handler_reached": got, "error": fmt.Sprint(err)}
-				}
-			}
-			rep.count(fmt.Sprint("conc", i), true)
-		}
-		close(stop)
-		<-done
-		rep.Distribution["concurrent_registration_rounds"] = rounds
-		if stale > 0 {
-			rep.fail(map[string]interface{}{"history": "goroutine B: Check($p$x) / Check($q$x) in a loop; goroutine A, per round i: RegisterHash($p$, handler i); Check($p$x)", "first_bad_round": first, "bad_rounds": stale},
-				"A's Check reaches handler i (its own registration completed before the call)", fmt.Sprintf("%d of %d rounds reached an older handler", stale, rounds),
-				"a Check issued after RegisterHash returned is routed to a handler registered earlier (routing to the latest registration fails under concurrent dispatch)")
-		}
-	}
-	// ---- part 4: concurrent registrations of different prefixes; concurrent dispatch calls each reach the handler ----
-	{
-		crypt.VerifResetRegistry()
-		G, each := 8, 60
-		if tier == "thorough" {
-			G, each = 16, 400
-		}
-		var hits sync.Map
-		var wg sync.WaitGroup
-		for g := 0; g < G; g++ {
-			wg.Add(1)
-			go func(g int) {
-				defer wg.Done()
-				for k := 0; k < each; k++ {
-					pre := fmt.Sprintf("$g%dk%d$", g, k)
-					crypt.RegisterHash(pre, func(h, p string) error { hits.Store(h, true); return nil })
-				}
-			}(g)
-		}
-		wg.Wait()
-		lost := 0
-		var firstLost string
-		for g := 0; g < G; g++ {
-			for k := 0; k < each; k++ {
-				h := fmt.Sprintf("$g%dk%d$x", g, k)
-				err := crypt.Check(h, "p")
-				if _, ok := hits.Load(h); err != nil || !ok {
-					lost++
-					if firstLost == "" {
-						firstLost = h + " -> " + fmt.Sprint(err)
-					}
-				}
-			}
-		}
-		if lost > 0 {
-			rep.fail(map[string]interface{}{"history": fmt.Sprintf("%d goroutines register %d distinct prefixes each, concurrently; afterwards every prefix is checked", G, each), "first": firstLost},
-				"every registered prefix is routed to its handler", fmt.Sprintf("%d of %d registrations are not in effect", lost, G*each), "a registration made concurrently with others is lost")
-		}
-		rep.count("concurrent registrations", true)
-		// every dispatch call is passed through to the handler with its own arguments, also when calls overlap
-		// (handlers that take a while, identical calls, and calls whose hash+'$'+password texts coincide)
-		crypt.VerifResetRegistry()
-		var mu sync.Mutex
-		got := map[string]int{}
-		crypt.RegisterHash("$x$", func(h, p string) error {
-			time.Sleep(200 * time.Microsecond)
-			mu.Lock()
-			got[h+"\x00"+p]++
-			mu.Unlock()
-			return fmt.Errorf("r:%s:%s", h, p)
-		})
-		pairs := [][2]string{{"$x$salt$sum", "pass$word"}, {"$x$salt$sum$pass", "word"}, {"$x$salt$sum", "pass$word"}, {"$x$a", "b"}, {"$x$a", "b"}, {"$x$", ""}, {"$x$a$", "b"}, {"$x$a", "$b"}}
-		want := map[string]int{}
-		wrong := 0
-		var firstWrong string
-		var wg2 sync.WaitGroup
-		start := make(chan struct{})
-		reps := 40
-		for rpt := 0; rpt < reps; rpt++ {
-			for _, pr := range pairs {
-				want[pr[0]+"\x00"+pr[1]]++
-				wg2.Add(1)
-				go func(h, p string) {
-					defer wg2.Done()
-					<-start
-					err := crypt.Check(h, p)
-					if err == nil || err.Error() != "r:"+h+":"+p {
-						mu.Lock()
-						wrong++
-						if firstWrong == "" {
-							firstWrong = fmt.Sprintf("Check(%q, %q) returned %v", h, p, err)
-						}
-						mu.Unlock()
-					}
-				}(pr[0], pr[1])
-			}
-		}
-		close(start)
-		wg2.Wait()
-		mu.Lock()
-		for k, n := range want {
-			if got[k] != n && firstWrong == "" {
-				firstWrong = fmt.Sprintf("handler was called %d times with %q, %d calls were made", got[k], strings.Replace(k, "\x00", " / ", 1), n)
-				wrong++
-			}
-		}
-		mu.Unlock()
-		if wrong > 0 {
-			rep.fail(map[string]interface{}{"history": fmt.Sprintf("%d overlapping Check calls on one prefix (identical calls, and calls whose hash+$+password coincide)", reps*len(pairs)), "first": firstWrong},
-				"every call invokes the handler once with its own hash and password and returns that invocation's result", fmt.Sprintf("%d deviations", wrong),
-				"overlapping dispatch calls are merged, dropped or answered with another call's result")
-		}
-		rep.count("overlapping dispatch", true)
 	}
 	must(cs2.flush())
 	rep.CaseSets = []string{"C07_prefix", "C07_hist"}
